@@ -59,6 +59,14 @@ func ruleReaderFlow(p *Prog, l *Ledger, tier string) {
 		for _, b := range fn.Blocks {
 			for _, ins := range b.Instrs {
 				if site, ok := ins.(ssa.CallInstruction); ok && isRawRead(site.Common()) {
+					if call, isCall := ins.(*ssa.Call); isCall {
+						if fl, why := recogniseFillLoop(fn, call); fl != nil {
+							l.Prove(rule, fname, l.Key(rule, fname, "fill-loop", calleeName(site.Common())), p.Pos(site.Pos()), "Read sits in a read-until-full loop: offset advanced by the count, exits only on full buffer or error, error looked at only when the buffer is not full")
+							continue
+						} else {
+							l.Note("%s: direct Read at %s is not a verified fill loop: %s", rule, p.Pos(site.Pos()), why)
+						}
+					}
 					l.Fail(rule, fname, l.Key(rule, fname, "raw-read", calleeName(site.Common())), p.Pos(site.Pos()),
 						fname+" calls "+calleeName(site.Common())+" directly: a single Read may return fewer bytes than requested (and data together with io.EOF), so the result depends on how the stream delivers its bytes; use io.ReadFull or a buffered consumer")
 				}
